@@ -56,7 +56,9 @@ def _pipeline_info(pipe, data, context, former_data=None):
                 if isinstance(data, OrderedDict):
                     new_data = [_[1] for _ in data.items()]
                 else:
-                    mx = max(vs)
+                    # positions may be counted from the end (the outputs of the
+                    # previous step are not always known one by one)
+                    mx = max(0, max(v if v >= 0 else len(data) + v for v in vs))
                     while len(new_data) <= mx:
                         if len(data) > len(new_data):
                             new_data.append(data[len(new_data)])
